@@ -383,3 +383,45 @@ Proof.
   destruct (val a =? v); cbn [negb] in *; exact Hk.
 Qed.
 End Eq.
+
+(* ---------------- BitsLSBF / BitsMSBF:  assign b_k = a[k];  for every k  (one assign `b_0 = a` when a is 1 bit wide) *)
+Section BitsE.
+Variable env : list Z.
+Notation val n := (getv env (fst n)).
+
+Lemma nth_map_seqZ (f : Z -> Z) n k : (k < n)%nat -> nth k (map f (seqZ 0 (Z.of_nat n))) 0 = f (Z.of_nat k).
+Proof.
+  intros Hk. unfold seqZ. rewrite map_map. replace (Z.to_nat (Z.of_nat n - 0)) with n by lia.
+  rewrite (nth_indep _ 0 (f (0 + Z.of_nat 0))) by (rewrite map_length, seq_length; lia).
+  rewrite (map_nth (fun j => f (0 + Z.of_nat j)) (seq 0 n) 0%nat k). rewrite seq_nth by lia. f_equal.
+Qed.
+
+(* what the simulator stores into the k-th listed wire (same function for LSBF and MSBF: the constructors order the port list) *)
+Lemma bits_propagate_nth wa lw v k : (k < wa)%nat ->
+  nth k (BitsLSBF_propagate (Z.of_nat wa) lw v) 0 = Wire_put (nth k lw 0) (Z.land (py_shr v (Z.of_nat k)) 1) /\
+  nth k (BitsMSBF_propagate (Z.of_nat wa) lw v) 0 = Wire_put (nth k lw 0) (Z.land (py_shr v (Z.of_nat k)) 1).
+Proof.
+  intros Hk. unfold BitsLSBF_propagate, BitsMSBF_propagate. cbv zeta.
+  rewrite !(nth_map_seqZ (fun i => Wire_put (getZ lw i) (Z.land (py_shr v i) 1)) wa k Hk).
+  unfold getZ. rewrite Nat2Z.id. split; reflexivity.
+Qed.
+
+(* the emitted assign for bit k *)
+Theorem inl_bits_sound a b k : okn env a -> 0 < snd b -> 0 <= k < snd a -> k < 2 ^ 31 ->
+  assign_value env (whole b) (RBit (fst a) (snd a) (RNum k)) = Wire_put (snd b) (Z.land (py_shr (val a) k) 1).
+Proof.
+  intros Ha Hb Hk Hk2.
+  pose proof (inl_bit_sound env b a k Ha Hb Hk Hk2 (whole b) (RBit (fst a) (snd a) (pynum k)) eq_refl) as H.
+  unfold pynum in H. destruct (Z.ltb_spec k 0); [lia|]. rewrite H. reflexivity.
+Qed.
+
+(* a 1-bit operand: assign b_0 = a; *)
+Theorem inl_bits1_sound a b : okn env a -> snd a = 1 -> 0 < snd b ->
+  forall l e, inl_bits a [b] = [(l, e)] -> assign_value env l e = Wire_put (snd b) (Z.land (py_shr (val a) 0) 1).
+Proof.
+  intros Ha H1 Hb l e H; inversion H; subst; clear H.
+  rewrite (inl_buf_sound env b a Ha Hb _ _ eq_refl). unfold Buf_propagate, py_shr. cbv zeta. rewrite Z.shiftr_0_r.
+  destruct Ha as [_ Hv]. rewrite H1 in Hv. change (2 ^ 1) with 2 in Hv.
+  assert (Hc : val a = 0 \/ val a = 1) by lia. destruct Hc as [-> | ->]; reflexivity.
+Qed.
+End BitsE.
